@@ -192,3 +192,33 @@ Theorem C04_nth_padded_plane : forall H W p0 p1 fill gimg i, 1 <= H -> 1 <= W ->
   if interior_b g i then img_get gimg (i / gPW g - p0) (i mod gPW g - p1) else fill.
 Proof. exact nth_padded_plane. Qed.
 Print Assumptions C04_nth_padded_plane.
+
+(* ---- round 3 ---- *)
+(* Full.  The three value-level facts hold for every accepted input (padding >= 1). *)
+Theorem C04_padded_values_facts : forall image mask fp,
+  accepted_common image mask fp = true -> 1 <= zlen fp / 2 -> 1 <= width fp / 2 ->
+  let g := mkgeom (zlen image) (width image) (zlen fp / 2) (width fp / 2) in
+  let values := prep_values image mask fp in
+  let val := fun i => nth (Z.to_nat i) values 0 in
+  geom_ok g /\
+  (forall i, 0 <= i < gS g -> interior_b g i = false ->
+     val i = img_min image /\ val (i + gS g) = img_min image) /\
+  (forall j, 0 <= j < 2 * gS g -> img_min image <= val j) /\
+  (forall i, 0 <= i < gS g -> val i <= val (i + gS g)).
+Proof. exact padded_values_facts. Qed.
+Print Assumptions C04_padded_values_facts.
+
+(* Full — the unconditional form of C04_model_safe_partial: for EVERY accepted input with
+   footprint dimensions >= 3 (offset=None) the complete model (wrapper set-up, loop, gather) never
+   reads or writes outside its arrays, never drops a node from the list, and returns an image of
+   the input's height.  No per-instance premise. *)
+Theorem C04_model_safe : forall image mask fp,
+  accepted image mask fp = true -> 3 <= zlen fp -> 3 <= width fp ->
+  match grey_reconstruction image mask fp with
+  | Ok (out, d) => d = 0 /\ zlen out = zlen image
+  | OutOfFuel => True
+  | Oob => False
+  | Rejected => False
+  end.
+Proof. exact model_safe_full. Qed.
+Print Assumptions C04_model_safe.
